@@ -94,7 +94,10 @@ def generate(prng, tier, index):
                        {"int": "mix", "p": 0.5}))
     return {"variant": variant, "universe": uni, "ops": ops, "policy": pol, "max_faults": prng.choice((1, 2, 3)),
             # when the harness itself iterates the set: after every operation, or only at the history's own iterate operations
-            "observe": prng.choice(("every", "every", "sparse", "blind"))}
+            "observe": prng.choice(("every", "every", "sparse", "blind")),
+            # operations on a second live set, interleaved one per operation of the history (cyclically)
+            "other": ([[prng.choice(("add", "add", "remove", "none", "new" if prng.random() < 0.3 else "add")), prng.randrange(64)]
+                       for _ in range(prng.randrange(1, 8))] if prng.random() < 0.3 else None)}
 
 
 _NAN, _NAN2 = float("nan"), float("nan")
@@ -215,11 +218,29 @@ def execute(sc, ctx):
     usrc = None
     ds = DrawSet()
     model = set()
+    # a SECOND live set (and, now and then, a third one constructed in the middle of the history): whatever happens to it
+    # must not show in the first.  Its own content is compared with its own model at the end.
+    other = DrawSet() if sc.get("other") else None
+    omodel = set()
     emptied = False
     mutations = 0
     invalid = 0
     for k, (op, arg) in enumerate(sc["ops"]):
         after = f"op#{k} {op}({arg})"
+        if other is not None:
+            oo = sc["other"][k % len(sc["other"])]
+            try:
+                if oo[0] == "add":
+                    e2 = _el(uni[oo[1] % len(uni)])
+                    other.add(e2); omodel.add(e2)
+                elif oo[0] == "remove" and omodel:
+                    e2 = sorted(omodel, key=repr)[oo[1] % len(omodel)]
+                    other.remove(e2); omodel.discard(e2)
+                elif oo[0] == "new":
+                    other = DrawSet(); omodel = set()
+            except Exception as ex:
+                ctx.violate("C20.raised", f"operation {oo} on a second, independent set raised {describe_exc(ex)} before {after}")
+                return
         if op == "add":
             e = _el(uni[arg % len(uni)])
             present = e in model
@@ -373,6 +394,10 @@ def execute(sc, ctx):
         ctx.result(op, len(model))
     if sc.get("observe", "every") != "every":
         ctx.probe(f"{sc['observe']}_observation_history")
+    if other is not None:
+        ctx.probe("second_live_set")
+        if not _compare(ctx, other, omodel, uni, "the end of the history (second, independent set)"):
+            return
     ctx.mutations = mutations
 
 
